@@ -4,7 +4,7 @@ from __future__ import annotations
 import ast as _ast
 import struct as _struct
 
-from ..common import all_conds, alloc_typecodes, cell_range_fn, conds_at, nshow, outer_field, paths, typed_fields
+from ..common import all_conds, alloc_typecodes, cell_range_fn, conds_at, mro_methods, nshow, outer_field, paths, typed_fields
 from ..expr import C, SELF, canon, norm, show, strip_epochs, walk
 from ..intervals import Intervals, fmt_iv
 from ..model import AnalysisError
@@ -637,6 +637,29 @@ def check(prog, rep, tier):
                 f"{miss[0].cls.name}.{miss[0].src_name} changes an on-disk filter without rewriting the count in its file: bytes() / a copy of the file then loads with a stale element count", miss[0].where())
     else:
         rep.ok("C05.ondisk-count-current", "every mutator of persisted state reaches __update")
+    # ---------------------------------------------------------------- a saved filter that is named is the one that is loaded
+    rep.rule("C05.init-precedence", "Bloom constructors build from the sizing parameters only when neither a valid file nor a hex string is given (documented order: file, hex, parameters)", floor=2)
+    for ctx in ("BloomFilter", "CountingBloomFilter"):
+        init = prog.method(ctx, "__init__")
+        look = tuple(sorted({m.qualname for m in mro_methods(prog, ctx) if m.src_name in ("_load_init", "__init__")} | {k.methods["__init__"].qualname for k in prog.cls(ctx).mro() if "__init__" in k.methods}))
+        badp, nret = None, 0
+        for p in paths(prog, ctx, init, force_inline=look):
+            if p.exit[0] != "return":
+                continue
+            nret += 1
+            called = {e.name for e in p.events if e.kind == "call" and e.target is not None}
+            def decided(fn, truth):
+                return any(c.truth == truth and strip_epochs(c.atom)[0] in ("ret", "call") and str(strip_epochs(c.atom)[1]).endswith(fn + "')") or
+                           (c.truth == truth and strip_epochs(c.atom)[0] == "ret" and strip_epochs(c.atom)[1].endswith(fn)) for c in p.conds)
+            if "_load" not in called and not decided("is_valid_file", False):
+                badp = badp or "a path builds the filter without loading the file and without having found the file argument invalid"
+            if "_load" not in called and "_load_hex" not in called and not decided("is_hex_string", False):
+                badp = badp or "a path builds the filter from the sizing parameters without having found the hex string argument invalid"
+        if badp:
+            rep.bad("C05.init-precedence", f"{ctx}.__init__", "source precedence",
+                    f"{badp}: BloomFilter(est_elements, false_positive_rate, filepath=saved) - the open-or-create idiom - returns a new empty filter instead of the saved one", init.where())
+        elif nret:
+            rep.ok("C05.init-precedence", f"{ctx}.__init__: file, then hex string, then parameters ({nret} paths)")
     # ---------------------------------------------------------------- what the format does not store is honoured when re-supplied
     rep.rule("C05.resupplied", "parameters the format does not store (hash function, queue limit, table sizes, error rate) are honoured when re-supplied", floor=12)
     resupplied_rule(prog, rep, "C05.resupplied", None)
@@ -650,6 +673,8 @@ from ..selftest import Mutant, del_stmt, insert_stmt, replace_expr, replace_stmt
 _B, _CB, _E, _CM, _CK, _CC = ("blooms/bloom.py", "blooms/countingbloom.py", "blooms/expandingbloom.py", "countminsketch/countminsketch.py",
                               "cuckoo/cuckoo.py", "cuckoo/countingcuckoo.py")
 MUTANTS = [
+    Mutant("BloomFilter: sizing parameters take precedence over a valid file", _B, replace_expr("BloomFilter", "_load_init", "is_valid_file(filepath)", "est_elements is None and is_valid_file(filepath)"), rule="C05.init-precedence"),
+    Mutant("CountingBloomFilter: hex string no longer consulted when parameters are given", _CB, replace_expr("CountingBloomFilter", "_load_init", "is_hex_string(hex_string)", "false_positive_rate is None and is_hex_string(hex_string)"), rule="C05.init-precedence"),
     Mutant("_load: delete self._els_added = els_added", _B, del_stmt("BloomFilter", "_load", "self._els_added = els_added"), rule="C05.slot"),
     Mutant("_load_hex: delete self._els_added = els_added", _B, del_stmt("BloomFilter", "_load_hex", "self._els_added = els_added"), rule="C05.slot"),
     Mutant("frombytes: delete blm._els_added = els_added", _B, del_stmt("BloomFilter", "frombytes", "blm._els_added = els_added"), expect="silent"),
